@@ -2,6 +2,5 @@ NA = {
  "C14": "Idempotence is a relation between two runs of Format∘Parse over unbounded text; no per-function contract within reach of the SMT back ends expresses or decides it (DESIGN.md §5). Not switching technique.",
  "C20": "Generated VCL goes through text/template's reflective interpreter over template strings; no falco function carries a contract that could state the property, and unbounded string transduction is outside the decidable fragment (DESIGN.md §5).",
  "C03": "Relates two whole-program runs (parse, format, parse again) over unbounded text and Go string building; it needs the tree specification that C02 lacks plus a functional specification of the layout engine. Not reached with contracts; nothing is claimed (DESIGN.md §0.7).",
- "C09": "Comment-insensitivity is an equality of two whole-program runs on inputs that differ in trivia; it needs the parser tree specification (C02) and a contract on every consumer of Meta comments. Only the ignore-comment consumer is under contract (C12). Not reached; nothing is claimed (DESIGN.md §0.7).",
  "C15": "Comment preservation relates the parser's comment attachment to the formatter's output text over unbounded input; it needs a multiset specification of comments through parse and format, which string-level SMT reasoning over Go string building does not decide. Not reached; nothing is claimed (DESIGN.md §0.7).",
 }
